@@ -66,6 +66,12 @@ pub struct Plan {
     /// this shape (`.1`): a ticket's fee counts as routing work like any other transaction's
     #[serde(default)]
     pub ticket_fee_path: Option<(u64, String)>,
+    /// work mode: the offered block does not extend the replica's tip. The replica first adopts a slow block M
+    /// (30-60 s after the common parent: low burn fee) on that parent; the offered block B arrives as M's sibling
+    /// and a child of B then makes that branch the longer, heavier one: B is validated during a reorganisation,
+    /// where "the parent's burn fee" is not the current tip's
+    #[serde(default)]
+    pub via_reorg: bool,
 }
 
 const HB: u64 = 1000;
@@ -75,7 +81,7 @@ fn gen(seed: u64, tier: Tier) -> Plan {
     if rng.chance(1, 12) {
         // rebroadcast family: prefix = genesis period (3..5), dts[0] = offset of the offered block
         let dts = vec![*rng.pick(&[100u64, 300, 700, 1200, 1700]) + rng.below(50)];
-        return Plan { seed, mode: "atr-work".into(), prefix: rng.range(3, 5) as usize, txs: vec![], dts, blocks: vec![], mid_chain: false, boundary: false, bad_ticket: None, ticket_fee_path: None };
+        return Plan { seed, mode: "atr-work".into(), prefix: rng.range(3, 5) as usize, txs: vec![], dts, blocks: vec![], mid_chain: false, boundary: false, bad_ticket: None, ticket_fee_path: None, via_reorg: false };
     }
     if rng.chance(1, 2) {
         let n = rng.range(1, if tier == Tier::Quick { 6 } else { 8 }) as usize;
@@ -94,7 +100,8 @@ fn gen(seed: u64, tier: Tier) -> Plan {
         let mid_chain = rng.chance(1, 4);
         let boundary = rng.chance(1, 5);
         let ticket_fee_path = if rng.chance(1, 3) { Some((*rng.pick(&[1_000u64, 20_000, 150_000]) + rng.below(500), rng.pick(PATHS).to_string())) } else { None };
-        Plan { seed, mode: "work".into(), prefix: rng.range(1, 3) as usize, txs, dts, blocks: vec![], mid_chain, boundary, bad_ticket: None, ticket_fee_path }
+        let via_reorg = !mid_chain && !boundary && rng.chance(1, 4);
+        Plan { seed, mode: "work".into(), prefix: rng.range(1, 3) as usize, txs, dts, blocks: vec![], mid_chain, boundary, bad_ticket: None, ticket_fee_path, via_reorg }
     } else {
         let n = rng.range(4, if tier == Tier::Quick { 10 } else { 20 }) as usize;
         let gt_style = rng.below(4);
@@ -111,7 +118,7 @@ fn gen(seed: u64, tier: Tier) -> Plan {
             })
             .collect();
         let bad_ticket = if rng.chance(1, 2) { Some((rng.range(2, n as u64) as usize, rng.below(5) as u8)) } else { None };
-        Plan { seed, mode: "payout".into(), prefix: 0, txs: vec![], dts: vec![], blocks, mid_chain: false, boundary: false, bad_ticket, ticket_fee_path: None }
+        Plan { seed, mode: "payout".into(), prefix: 0, txs: vec![], dts: vec![], blocks, mid_chain: false, boundary: false, bad_ticket, ticket_fee_path: None, via_reorg: false }
     }
 }
 
@@ -320,7 +327,7 @@ impl Scenario for C08 {
     fn meta(&self) -> Meta {
         Meta {
             level: "exploration",
-            rule: "three families. rebroadcast (one run in twelve): producer chain with genesis period 3..5 grown past the window with fee-paying payments, then a block 0.1-1.7 s after its parent with no routed transaction, whose rebroadcast (ATR) transactions charge fees: offered as built and with an unsigned hop to the creator attached to every rebroadcast transaction - neither may pass the work gate. work (a fifth of its runs: one routed transaction whose fee is exactly the integer part of parent burn fee / elapsed at an offset where the fraction is 0.6..0.95, i.e. one nolan below the rounded requirement - must be refused): parent chain of 1-3 blocks, then the same transaction set (1-6/8 payments, fee classes 0..150k nolan, path shapes valid-1/2/3 hops, none, not ending at the creator, passing through the creator but ending elsewhere, forged hop signature, non-contiguous, self-hop) (one transaction in six typed BlockStake instead of Normal; in a third of the runs the block's golden-ticket transaction itself pays a fee from an output of its solver and carries one of the path shapes) bundled at two timestamp offsets drawn from {0.001, 0.05, 0.2, 0.5, 0.9, 1.5, 1.999, 2.0, 2.5} heartbeats (+jitter), each offered to a fresh replica. Oracle: accepted => every path cryptographically valid, contiguous, no self-hop; and for offset < 2 heartbeats independently computed work (u128, halving per hop after the first, only paths ending at the creator) >= parent_burnfee/offset - 1; acceptance at the smaller offset implies acceptance at the larger; offset >= 2 heartbeats needs no work. payout: histories of 4-10/20 blocks with routed fee-paying transactions and four ticket patterns (every 2nd, every 3rd, every block, random); for every accepted block with a Fee transaction: each output goes to the ticket's key, to a hop recipient of a transaction in the blocks being paid (previous; and the one before when the previous had no ticket), or to the sender of a path-less transaction there; sum of outputs <= fees collected by those blocks (u128). In half of the payout runs one step first offers a rival block on the same parent whose golden ticket does not solve the parent's lottery (solved at the parent's difficulty against the grandparent's / the genesis block's / a made-up hash, or aimed at the parent but below its difficulty; only where the parent's difficulty is > 0, reached through the ticket-in-every-block pattern): it must not be accepted; a fifth kind lets the honest block carry a ticket solved by one key inside a golden-ticket transaction signed by another (the miner payout belongs to the solver). distinct_nontrivial = distinct (offset bucket, path-shape multiset, margin sign) resp. (payout history digest).",
+            rule: "three families. rebroadcast (one run in twelve): producer chain with genesis period 3..5 grown past the window with fee-paying payments, then a block 0.1-1.7 s after its parent with no routed transaction, whose rebroadcast (ATR) transactions charge fees: offered as built and with an unsigned hop to the creator attached to every rebroadcast transaction - neither may pass the work gate. work (a fifth of its runs: one routed transaction whose fee is exactly the integer part of parent burn fee / elapsed at an offset where the fraction is 0.6..0.95, i.e. one nolan below the rounded requirement - must be refused): parent chain of 1-3 blocks, then the same transaction set (1-6/8 payments, fee classes 0..150k nolan, path shapes valid-1/2/3 hops, none, not ending at the creator, passing through the creator but ending elsewhere, forged hop signature, non-contiguous, self-hop) (one transaction in six typed BlockStake instead of Normal; in a third of the runs the block's golden-ticket transaction itself pays a fee from an output of its solver and carries one of the path shapes) bundled (in a quarter of the runs offered as a sibling of a slow block the replica adopted first and made the longer, heavier branch by a child, so that it is validated during a reorganisation) at two timestamp offsets drawn from {0.001, 0.05, 0.2, 0.5, 0.9, 1.5, 1.999, 2.0, 2.5} heartbeats (+jitter), each offered to a fresh replica. Oracle: accepted => every path cryptographically valid, contiguous, no self-hop; and for offset < 2 heartbeats independently computed work (u128, halving per hop after the first, only paths ending at the creator) >= parent_burnfee/offset - 1; acceptance at the smaller offset implies acceptance at the larger; offset >= 2 heartbeats needs no work. payout: histories of 4-10/20 blocks with routed fee-paying transactions and four ticket patterns (every 2nd, every 3rd, every block, random); for every accepted block with a Fee transaction: each output goes to the ticket's key, to a hop recipient of a transaction in the blocks being paid (previous; and the one before when the previous had no ticket), or to the sender of a path-less transaction there; sum of outputs <= fees collected by those blocks (u128). In half of the payout runs one step first offers a rival block on the same parent whose golden ticket does not solve the parent's lottery (solved at the parent's difficulty against the grandparent's / the genesis block's / a made-up hash, or aimed at the parent but below its difficulty; only where the parent's difficulty is > 0, reached through the ticket-in-every-block pattern): it must not be accepted; a fifth kind lets the honest block carry a ticket solved by one key inside a golden-ticket transaction signed by another (the miner payout belongs to the solver). distinct_nontrivial = distinct (offset bucket, path-shape multiset, margin sign) resp. (payout history digest).",
             real: &["BurnFee", "Transaction::generate_total_work/validate_routing_path/get_winning_routing_node", "Block::validate (work check, golden ticket, fee transaction)", "Block::find_winning_router", "Hop"],
             stubs: &["SimIo", "SimConfig", "vendored ahash"],
             assumptions: &["secp256k1/blake3 wrappers (verify) are trusted primitives of the oracle", "genesis period >> depth"],
@@ -514,8 +521,37 @@ impl Scenario for C08 {
                     r.discarded = true;
                     return r;
                 }
-                let oc = n.add_block_bytes(&bytes).as_ref().map(outcome_of);
-                let ok = oc == Some(AddOutcome::Added { longest: true });
+                let ok = if plan.via_reorg {
+                    // slow sibling first, then the offered block as a stored side block, then its child
+                    let m = match crate::util::guarded(|| w.honest_child(parent, &mut rng, 1, (prec.id + 1) % 2 == 0, 30_000 + 1000 * (dt % 30), "slow-main")) {
+                        Ok(Ok(m)) => m,
+                        _ => {
+                            r.discarded = true;
+                            return r;
+                        }
+                    };
+                    let om = n.add_block_bytes(&w.recs[m].bytes.clone()).as_ref().map(outcome_of);
+                    if om != Some(AddOutcome::Added { longest: true }) {
+                        r.discarded = true;
+                        r.probe("slow_main_block_refused");
+                        return r;
+                    }
+                    let ob = n.add_block_bytes(&bytes).as_ref().map(outcome_of);
+                    let bi = w.register(b.clone(), true, "offered-as-side-block");
+                    let child = crate::util::guarded(|| w.honest_child(bi, &mut rng, 1, (prec.id + 2) % 2 == 0, 2 * HB + 300, "child-of-offered"));
+                    match (ob, child) {
+                        (Some(AddOutcome::Added { longest: false }), Ok(Ok(ci))) => {
+                            let _ = n.add_block_bytes(&w.recs[ci].bytes.clone());
+                            r.fault("offered_block_validated_during_a_reorganisation", 1);
+                            n.tip().1 == w.recs[ci].hash
+                        }
+                        (Some(AddOutcome::Added { longest: true }), _) => true,
+                        _ => false,
+                    }
+                } else {
+                    let oc = n.add_block_bytes(&bytes).as_ref().map(outcome_of);
+                    oc == Some(AddOutcome::Added { longest: true })
+                };
                 trace.u64(dt).u64(ok as u64);
                 accepted.push((dt, ok));
                 r.steps += 1;
